@@ -103,6 +103,7 @@ pub fn injected() -> io::Error {
 
 /// A source delivering `data` according to a schedule; optionally failing (stickily) at call k
 /// (0-based index over read/fill_buf calls that would have to touch the source).
+#[derive(Debug)]
 pub struct SchedRead {
     data: Vec<u8>,
     pos: usize,
